@@ -330,16 +330,19 @@ impl<'dbg> FatDieRef<'dbg, Function> {
         pc: GlobalAddress,
         needle: &str,
     ) -> Option<FatDieRef<'dbg, Variable>> {
-        weak_error!(self.deref())?.for_each_children_recursive_t(|child| {
+        // a shadowing binding lives in a block nested into the scope of the shadowed one,
+        // and the traversal goes level by level: the last valid match is the innermost binding
+        let mut innermost = None;
+        weak_error!(self.deref())?.for_each_children_recursive(|child| {
             if child.tag() == gimli::DW_TAG_variable {
                 let var_ref = FatDieRef::new_var(self.debug_info, self.unit_idx, child.offset());
 
                 if child.name().as_deref() == Some(needle) && var_ref.valid_at(pc) {
-                    return Some(var_ref);
+                    innermost = Some(var_ref);
                 }
             }
-            None
-        })
+        });
+        innermost
     }
 
     pub fn parameters(&self) -> Vec<FatDieRef<'dbg, Argument>> {
